@@ -456,6 +456,8 @@ class MirCrate:
                 while lines[j] != '}':
                     j += 1
                 i = j
+            elif l.startswith('alloc') and l.rstrip().endswith('{}'):
+                pass
             elif l.startswith('alloc') and '(size:' in l:
                 m = re.match(r'(alloc\d+) \(size: (\d+)', l)
                 j = i + 1
